@@ -14,6 +14,9 @@ EXPLANATION = ("static analysis; equality of graphs after a round trip is not cl
 
 
 def run(repo: Repo, tier, rep: Report):
+    from sa.writers_interp import check_generate_interactions_order
+    for cls in CLASSES:
+        check_generate_interactions_order(repo, rep, cls)
     cc = common.ctor(repo, tier)
     common.take_ctor(rep, cc, ("C10.",))
     rep.ob("O.replay", repo.construct(EDGELIST, "parse_interactions"), "'+'/'-' replay decided over order types, both classes")
